@@ -187,7 +187,7 @@ def parse_spec(path):
                     raise SpecError("bad %s line: %s" % (kw, raw))
                 sink = (kw[1:], cur_fn, m2.group(1), int(m2.group(2) or 1))
             elif kw == "@replace":
-                flush(); m2 = re.match(r"/(.*)/\s*(?:#(\d+|all))?\s*=>\s?(.*)$", rest)
+                flush(); m2 = re.match(r"/(.*)/\s*(?:#(\d+|all|opt))?\s*=>\s?(.*)$", rest)
                 if not m2:
                     raise SpecError("bad @replace line: %s" % raw)
                 cur_fn.replaces.append((m2.group(1), m2.group(2) or "1", m2.group(3)))
@@ -385,7 +385,7 @@ def rw_anyhow(text):
         cnt += 1
     while True:
         msk = L.mask(text)
-        m = re.search(r"\banyhow!\s*\(", msk)
+        m = re.search(r"\b(?:anyhow::)?anyhow!\s*\(", msk)
         if not m:
             break
         o = msk.find("(", m.start())
@@ -491,7 +491,12 @@ def extract_fn(src, msk, fs, log):
         if c:
             rlog.append("%s: %s x%d" % (fs.name, nm, c))
     for rgx, k, new in fs.replaces:
-        if k == "all":
+        if k == "opt":
+            # optional rule: applied when it matches (logged), silently skipped otherwise
+            text, c = re.subn(rgx, new, text, count=1)
+            if c == 0:
+                continue
+        elif k == "all":
             text, c = re.subn(rgx, new, text)
             if c == 0:
                 raise AnchorLost("@replace /%s/ no longer matches in %s" % (rgx, fs.name))
